@@ -15,7 +15,7 @@ import time
 from harness.sim import Sim
 from harness import monitors
 
-PROPERTIES = ["C09"]
+PROPERTIES = ["C09", "C06"]
 ORDER = 30
 
 
